@@ -603,3 +603,28 @@ SPECS["C05"] = {
     "assumptions": ["template programs as listed in the harness"],
     "outside": ["arbitrary programs beyond the templates", "argument counts above the parameter count (behaviour not defined by the reference)"],
 }
+
+SPECS["C19"] = {
+    "explanation": "The real ECALFunctionAdapter.Run (argument count/kind checks, numeric conversion, the reflective call, result conversion, trailing-error handling and the "
+                   "recover around all of it) is executed on a table of 25 synthetic Go functions covering every numeric parameter kind, string, bool, interface, slice, "
+                   "variadic, multi-result, trailing-error and panicking signatures x argument vectors of length 0..MAXARGS over the ECAL value universe (numbers full-width "
+                   "symbolic float64). Package reflect is not interpreted: the engine implements the subset the bridge uses (TypeOf/ValueOf, Type.NumIn/In/Out/Kind/Implements/Elem, "
+                   "Value.Call/Interface/Kind/Int/Uint/Float) on go/types with the documented panics, Call runs the Go function through the executor, and Go panic/recover "
+                   "semantics are executed (unwinding through deferred calls). A second harness goes through the real interpreter: ECAL calls of bridged functions registered "
+                   "with AddStdlibFunc and of generated stdlib entries (math.floor/ceil/trunc/abs/sqrt/isNaN/isInf/inf) with arbitrary argument vectors, also inside try.",
+    "level_text": "bounded: all functions of the table x all argument vectors up to MAXARGS over 7 value kinds, numbers full-width float64: no panic escapes, results/errors/conversions as stated",
+    "level_note": "trusts go/ssa, gosym and in particular its implementation of the reflect subset on go/types (identity, assignability, Kind, Call's documented panics) and of panic/recover; "
+                  "out-of-range float->integer conversions are modelled as an arbitrary value of the target type (implementation-specific in Go) except int64 (amd64 behaviour); "
+                  "counterexamples are replayed natively against real reflect",
+    "harnesses": [
+        {"name": "H1-adapter", "pkg": "stdlib", "files": ["stdlib/c19.go"], "fn": "VerifC19Adapter",
+         "what": "25 synthetic signatures x argument vectors of length 0..2 (quick) / 0..3 (thorough) x 7 kinds", "reach": ["before-run", "after-run", "wrong-vector", "fitting-vector", "in-range-integer"],
+         "quick": {"params": {"MAXARGS": 2}, "unwind": 40, "wall_s": 600}, "thorough": {"params": {"MAXARGS": 3}, "unwind": 40, "wall_s": 3000}},
+        {"name": "H2-ecal", "pkg": "interpreter", "files": ["interpreter/common.go", "interpreter/c06.go", "interpreter/c19.go"], "fn": "VerifC19Ecal",
+         "what": "ECAL calls of 8 generated math entries, 2 functions added with AddStdlibFunc (mixed signature with trailing error; run-time panic), a constant and an unknown name x argument vectors of length 0..3 x 9 kinds, plain and inside try",
+         "reach": ["before-eval", "after-eval", "fitting-vector", "fitting-mix"],
+         "quick": {"params": {"MAXARGS": 3}, "unwind": 40, "wall_s": 900}, "thorough": {"params": {"MAXARGS": 4}, "unwind": 40, "wall_s": 3000}},
+    ],
+    "assumptions": ["synthetic function table as listed in the harness", "reflect subset as implemented by the engine"],
+    "outside": ["plugin loading (package plugin)", "math functions without an exact SMT counterpart (sin, exp, ...): only their signatures are covered, through the synthetic table", "more than 3 arguments"],
+}
